@@ -373,9 +373,9 @@ func addrTerm(a *Addr) *Term {
 		if a.Path == "" {
 			return a.Ref
 		}
-		return UF("fieldptr!"+a.Base+"."+a.Path, SInt, a.Ref)
+		return UF("fieldptr!"+a.Base+"|"+a.Path, SInt, a.Ref)
 	case AElem:
-		return UF("elemptr!"+a.Base+"."+a.Path, SInt, a.Ref, a.Idx)
+		return UF("elemptr!"+a.Base+"|"+a.Path, SInt, a.Ref, a.Idx)
 	case ALocal:
 		return UF(fmt.Sprintf("cellptr!%d!%s", a.Cell, a.Path), SInt)
 	case AGlobal:
@@ -400,11 +400,13 @@ func (r *Run) addrOf(v *Val, te TypeEnv) *Addr {
 	p := v.L[0]
 	if p.Kind == KApp && strings.HasPrefix(p.Op, "fieldptr!") {
 		rest := strings.TrimPrefix(p.Op, "fieldptr!")
-		// Base is "<pkg>.<Type>", path follows the second dot
-		i := strings.Index(rest, ".")
-		j := strings.Index(rest[i+1:], ".")
-		base, path := rest[:i+1+j], rest[i+1+j+1:]
-		return &Addr{Kind: AField, Ref: p.Args[0], Base: base, Path: path, T: el}
+		i := strings.Index(rest, "|")
+		return &Addr{Kind: AField, Ref: p.Args[0], Base: rest[:i], Path: rest[i+1:], T: el}
+	}
+	if p.Kind == KApp && strings.HasPrefix(p.Op, "elemptr!") {
+		rest := strings.TrimPrefix(p.Op, "elemptr!")
+		i := strings.Index(rest, "|")
+		return &Addr{Kind: AElem, Ref: p.Args[0], Idx: p.Args[1], Base: rest[:i], Path: rest[i+1:], T: el}
 	}
 	if _, ok := types.Unalias(te.apply(el)).Underlying().(*types.Struct); ok {
 		return &Addr{Kind: AField, Ref: p, Base: typeName(te.apply(el)), T: el}
